@@ -16,6 +16,7 @@ import (
 	"fmt"
 	"os"
 	"path/filepath"
+	"strings"
 
 	"verifharness/c01/encx"
 	"verifharness/core"
@@ -37,23 +38,55 @@ type input struct {
 	Fk      []byte         `json:"fk,omitempty"`
 	File    string         `json:"file,omitempty"`
 	Big     bool           `json:"big,omitempty"`
+	Sty     *encx.MStyle   `json:"sty,omitempty"`      // spec: how the manifest line is written (nil = Go's way)
+	Sender2 bool           `json:"sender2,omitempty"` // enc: the sender's vault also holds DecryptionKeyName, under another key
 }
 
-func table(mode string, m encx.Manifest, optkn string, fk []byte, r *hx.Rand) encx.UTable {
+// recipient builds the recipient's vault for a document with manifest key name mk: the name
+// Decrypt must use (the option, else the manifest's) holds kek; every other name in play holds a
+// different key, so that using the wrong name cannot go unnoticed.
+func recipient(mode string, mk, optkn string, others []string, kek []byte, r *hx.Rand) encx.Vault {
+	v := encx.Vault{}
+	for _, n := range append([]string{mk, optkn}, others...) {
+		if n != "" {
+			v[n] = r.Bytes(32)
+		}
+	}
 	kn := optkn
 	if kn == "" {
-		kn = m.K
+		kn = mk
 	}
-	alg := encx.KwNames[m.Kw]
+	if kn == "" {
+		return v
+	}
 	switch mode {
 	case "wrongname":
-		return encx.UTable{{Wfk: m.Wfk, Alg: alg, Kn: kn + "-other", Ret: fk}}
+		delete(v, kn)
+		v[kn+"-other"] = kek
 	case "wrongkey":
-		return encx.UTable{{Wfk: m.Wfk, Alg: alg, Kn: kn, Ret: r.Bytes(32)}}
-	case "short":
-		return encx.UTable{{Wfk: m.Wfk, Alg: alg, Kn: kn, Ret: fk[:16]}}
+		// kn keeps its random key
+	default:
+		v[kn] = kek
 	}
-	return encx.UTable{{Wfk: m.Wfk, Alg: alg, Kn: kn, Ret: fk}}
+	return v
+}
+
+// table: the unwrap table of a recipient vault for this document ("short": the right name gives
+// back only 16 bytes).
+func table(mode string, v encx.Vault, m encx.Manifest, optkn string) encx.UTable {
+	t := v.UTableFor(m.Wfk, encx.KwNames[m.Kw])
+	if mode == "short" {
+		kn := optkn
+		if kn == "" {
+			kn = m.K
+		}
+		for i := range t {
+			if t[i].Kn == kn && len(t[i].Ret) >= 16 {
+				t[i].Ret = t[i].Ret[:16]
+			}
+		}
+	}
+	return t
 }
 
 func cphName(o *encx.Opts) string {
@@ -69,15 +102,26 @@ func run(ctx *core.Ctx, in input) error {
 	switch in.Kind {
 	case "enc":
 		p := in.P.Bytes()
-		wfk := r.Bytes(in.WfkLen)
-		res := encx.RunEncrypt(*in.Opts, p, in.Script, wfk, r.Fork())
+		// the sender's vault: KeyName -> kek; with Sender2 also DecryptionKeyName -> another key
+		kek := r.Bytes(32)
+		sender := encx.Vault{}
+		if in.Opts.KeyName != "" {
+			sender[in.Opts.KeyName] = kek
+		}
+		if in.Sender2 && in.Opts.DecKeyName != "" && in.Opts.DecKeyName != in.Opts.KeyName {
+			sender[in.Opts.DecKeyName] = r.Bytes(32)
+		}
+		res := encx.RunEncrypt(*in.Opts, p, in.Script, sender, in.WfkLen, r.Fork())
 		c := hx.Case{Kind: "enc", Input: hx.MustJSON(in), Facts: facts}
 		c.Class = fmt.Sprintf("enc/%s/%s/%s/%s/%s", encx.LenClass(len(p)), cphName(in.Opts), in.Opts.Alg,
 			in.Opts.KnCombo(), in.Script.Shape())
 		c.Trivial = false
 		c.Observed = map[string]any{"call_error": res.CallErr != nil, "doc_len": len(res.Doc), "status": res.Status}
-		c.Coq = fmt.Sprintf("CEnc %s %s %s %s %s %s %s %s", in.Opts.Coq(), hx.CoqBytes(res.Fk), hx.CoqBytes(res.Np),
-			hx.CoqBytes(wfk), res.CoqWrapArgs(), in.P.Coq(), in.Script.Coq(), res.CoqObs())
+		c.Coq = fmt.Sprintf("CEnc %s %s %s %s %s %s %s", in.Opts.Coq(), hx.CoqBytes(res.Fk), hx.CoqBytes(res.Np),
+			res.CoqWTable(), in.P.Coq(), in.Script.Coq(), res.CoqObs())
+		if in.Sender2 {
+			ctx.Sink.Count("enc/sender_vault=two_names")
+		}
 		if res.CallErr == nil && (!res.Known || (!res.HeaderOK && res.Status == "SClean")) {
 			c.Direct, c.Note = 1, "unclassified stream outcome or unparsable header"
 		}
@@ -109,20 +153,34 @@ func run(ctx *core.Ctx, in input) error {
 			}
 			sc2 = encx.GenItems(r, len(res.Doc), in.Style2, 1+r.Intn(len(res.Doc)+1), maxItems)
 		}
-		tbl := table(in.Dec, m, in.OptKn, res.Fk, r)
+		// the recipient's vault holds the sender's key under the name Decrypt must use, and other
+		// keys under every other name in play
+		rv := recipient(in.Dec, m.K, in.OptKn, []string{in.Opts.KeyName, in.Opts.DecKeyName}, kek, r)
+		tbl := table(in.Dec, rv, m, in.OptKn)
 		dres := encx.RunDecrypt(res.Doc, sc2, tbl, in.OptKn, r.Fork())
 		var docsrc string
 		if len(res.Doc) <= 600 {
 			docsrc = "(DBytes " + hx.CoqBytes(res.Doc) + ")"
 		} else {
 			d := sha256.Sum256(res.Doc)
-			docsrc = fmt.Sprintf("(DSpec %s %s %s %d %s)", m.Coq(), hx.CoqBytes(res.Fk), in.P.Coq(), len(res.Doc), hx.CoqBytes(d[:]))
+			docsrc = fmt.Sprintf("(DSpec %s %s %s %s %d %s)", encx.GoStyle(m.K == "").Coq(), m.Coq(), hx.CoqBytes(res.Fk),
+				in.P.Coq(), len(res.Doc), hx.CoqBytes(d[:]))
 		}
 		addDec(ctx, in, "dec-go", docsrc, m, tbl, sc2, res.Fk, dres, len(p))
 	case "spec":
 		p := in.P.Bytes()
-		doc := encx.SpecEncrypt(*in.M, in.Fk, p)
-		tbl := table(in.Dec, *in.M, in.OptKn, in.Fk, r)
+		sty := encx.GoStyle(in.M.K == "")
+		if in.Sty != nil {
+			sty = *in.Sty
+		}
+		doc := encx.SpecEncryptStyle(*in.M, sty, in.Fk, p)
+		// the key the sender wrapped under: wfk = fk XOR kek (specInput made it so)
+		kek := make([]byte, 32)
+		for i := range kek {
+			kek[i] = in.M.Wfk[i] ^ in.Fk[i]
+		}
+		rv := recipient(in.Dec, in.M.K, in.OptKn, []string{"sender-key", "mykey"}, kek, r)
+		tbl := table(in.Dec, rv, *in.M, in.OptKn)
 		sc := in.Script
 		if len(sc) == 0 {
 			maxItems := 48
@@ -133,7 +191,10 @@ func run(ctx *core.Ctx, in input) error {
 		}
 		dres := encx.RunDecrypt(doc, sc, tbl, in.OptKn, r.Fork())
 		d := sha256.Sum256(doc)
-		docsrc := fmt.Sprintf("(DSpec %s %s %s %d %s)", in.M.Coq(), hx.CoqBytes(in.Fk), in.P.Coq(), len(doc), hx.CoqBytes(d[:]))
+		docsrc := fmt.Sprintf("(DSpec %s %s %s %s %d %s)", sty.Coq(), in.M.Coq(), hx.CoqBytes(in.Fk), in.P.Coq(), len(doc), hx.CoqBytes(d[:]))
+		facts["style"] = sty.Name()
+		ctx.Sink.Count(fmt.Sprintf("spec/style=esc%d/ws%v/go_order%v", sty.Esc, len(sty.Ws) > 0,
+			strings.Join(sty.Order, ",") == strings.Join(encx.GoStyle(in.M.K == "").Order, ",")))
 		addDec(ctx, in, "dec-spec", docsrc, *in.M, tbl, sc, in.Fk, dres, len(p))
 	case "file":
 		doc, err := os.ReadFile(filepath.Join(encx.RepoDir(), "schemes", "enc", "v1", "testdata", in.File))
@@ -147,14 +208,16 @@ func run(ctx *core.Ctx, in input) error {
 		// the repository's tests wrap with the identity: the wrapped key IS the file key
 		fk := m.Wfk
 		optkn := in.OptKn
-		tbl := table("right", m, optkn, fk, r)
+		rv := recipient("right", m.K, optkn, nil, make([]byte, 32), r)
+		tbl := table("right", rv, m, optkn)
 		sc := in.Script
 		if len(sc) == 0 {
 			sc = encx.GenItems(r, len(doc), in.Style2, 1+r.Intn(len(doc)+1), 10)
 		}
 		dres := encx.RunDecrypt(doc, sc, tbl, optkn, r.Fork())
 		d := sha256.Sum256(doc)
-		docsrc := fmt.Sprintf("(DSpec %s %s %s %d %s)", m.Coq(), hx.CoqBytes(fk), in.P.Coq(), len(doc), hx.CoqBytes(d[:]))
+		docsrc := fmt.Sprintf("(DSpec %s %s %s %s %d %s)", encx.GoStyle(m.K == "").Coq(), m.Coq(), hx.CoqBytes(fk), in.P.Coq(),
+			len(doc), hx.CoqBytes(d[:]))
 		facts["file"] = in.File
 		addDec(ctx, in, "dec-file", docsrc, m, tbl, sc, fk, dres, len(in.P.Bytes()))
 	default:
@@ -273,7 +336,13 @@ func specInput(r *hx.Rand, o encx.Opts, n int, optkn, mode string, big bool) inp
 	} else if k == "" {
 		k = o.KeyName
 	}
-	m := encx.Manifest{K: k, Kw: algID[o.Alg], Wfk: r.Bytes(wfkLen(r, o.Alg)), Cph: cphID(o.Cipher), Np: r.Bytes(7)}
+	fk := r.Bytes(32)
+	wfk, _ := encx.Vault{"sender-key": r.Bytes(32)}.Wrap(fk, encx.CanonAlg[o.Alg], "sender-key", wfkLen(r, o.Alg))
+	m := encx.Manifest{K: k, Kw: algID[o.Alg], Wfk: wfk, Cph: cphID(o.Cipher), Np: r.Bytes(7)}
+	sty := encx.GenStyle(r, k == "")
+	if r.Chance(1, 4) {
+		sty = encx.GoStyle(k == "")
+	}
 	var p encx.PGen
 	if big {
 		p = encx.PSeq(r.Intn(256), n)
@@ -281,7 +350,7 @@ func specInput(r *hx.Rand, o encx.Opts, n int, optkn, mode string, big bool) inp
 		p = encx.GenPlain(r, n)
 	}
 	return input{Kind: "spec", P: p, Style2: styles[r.Intn(len(styles))], Dec: mode, OptKn: optkn, Seed: r.U64(),
-		M: &m, Fk: r.Bytes(32), Big: big}
+		M: &m, Fk: fk, Big: big, Sty: &sty}
 }
 
 func gen(ctx *core.Ctx) {
@@ -309,7 +378,8 @@ func gen(ctx *core.Ctx) {
 						mode := decMode(r)
 						must(input{Kind: "enc", Opts: &o, P: encx.GenPlain(r, n),
 							Script: encx.GenItems(r, n, styles[r.Intn(len(styles))], 1+r.Intn(n+1), 48),
-							Style2: styles[r.Intn(len(styles))], Dec: mode, OptKn: ov, WfkLen: wfkLen(r, alg), Seed: r.U64()})
+							Style2: styles[r.Intn(len(styles))], Dec: mode, OptKn: ov, WfkLen: wfkLen(r, alg), Seed: r.U64(),
+							Sender2: o.DecKeyName != "" && r.Bool()})
 						must(specInput(r, o, pickLen(r, k+3), ov, decMode(r), false))
 					}
 				}
